@@ -8,7 +8,7 @@ from . import common
 
 ID = 'C05'
 LEVEL = 'exploration'
-BUDGET = {'quick': (1500, 75.0), 'thorough': (60000, 1500.0)}
+BUDGET = {'quick': (8000, 80.0), 'thorough': (100000, 1500.0)}
 CHUNK = 10
 RULE = ('a bystander stack (either data link layer) with 0-3 CAs in the claim states operational / not started / waiting for veto / cannot-claim (real claim histories '
         'with a scripted contender) and ECU-level listeners (unfiltered, integer, predicate); per run: single frames to all 256 destinations x {PDU1, PDU2} (complete '
